@@ -163,6 +163,20 @@ theorem approx_bias_free (scaleBit : ℕ) {shiftPos : ℕ} (hs : 0 < shiftPos) {
     rw [this]; norm_num
   rw [this] at hcon; exact Bool.false_ne_true hcon
 
+/-- **stored weights** are integers of the signed `p`-bit range (the weight quantizer of C13 with
+`dequantize = False`; restated here so that C14's ranges are complete) -/
+theorem stored_weight_range {p : ℕ} (hp : 1 ≤ p) {w : List ℚ} {x : ℚ} (hx : x ∈ w) :
+    -(2 : ℤ) ^ (p - 1) ≤ mmLevel p w x ∧ mmLevel p w x ≤ (2 : ℤ) ^ (p - 1) - 1 := by
+  rw [mmLevel_eq hp]
+  refine ⟨le_min ?_ ?_, min_le_right _ _⟩
+  · apply le_rne_of_le
+    have h := abs_le.mp (abs_div_step_le hp hx)
+    rw [nSteps_succ hp] at h
+    push_cast
+    linarith [h.1]
+  · have : (1 : ℤ) ≤ (2 : ℤ) ^ (p - 1) := one_le_pow₀ (by norm_num)
+    omega
+
 /-! ## requantisation -/
 
 /-- **activation ranges**: MATCH outputs are unsigned `p`-bit, MAUPITI outputs offset-signed -/
@@ -199,11 +213,8 @@ theorem requant_error_bound (a b : ℚ) (M top : ℤ) (h0 : 0 ≤ top) (hM : top
       ≤ 1 + |a - b| + ((max 0 (M - 1 - top) : ℤ) : ℚ) :=
   clip_floor_error a b M top h0 hM
 
-/-- what PACT's stabiliser contributes to the difference of the two pre-rounding values:
-`acc·s_w·(s_x/s_y − σx/σy) + n_b·s_x·s_w·(1/s_y − 1/σy)`; it is `0` when `σ = s` -/
-def stabTerm (acc nb : ℤ) (sw sx σx sy σy : ℚ) : ℚ :=
-  (acc : ℚ) * sw * (sx / sy - σx / σy) + (nb : ℚ) * sx * sw * (1 / sy - 1 / σy)
-
+/-- `stabTerm` (what PACT's stabiliser contributes to the difference of the two pre-rounding
+values) vanishes when the step used equals the reported scale (`σ = s`) -/
 theorem stabTerm_no_stab (acc nb : ℤ) (sw sx sy : ℚ) : stabTerm acc nb sw sx sx sy sy = 0 := by
   unfold stabTerm; ring
 
@@ -227,10 +238,8 @@ theorem layer_vs_fq {eps clipY : ℚ} (he : 0 ≤ eps) (hc : 0 < clipY) (p : ℕ
       ≤ 1 + |((acc + nb : ℤ) : ℚ)| * |(s : ℚ) / pow2 sh - sw * sx / pactScale p clipY|
           + |stabTerm acc nb sw sx σx (pactScale p clipY) (pactStepE eps p clipY)|
           + ((max 0 (2 ^ p - 1 - 1 - pactTopE eps p clipY) : ℤ) : ℚ) := by
-  have htop0 : 0 ≤ pactTopE eps p clipY := by
-    have := (C13_level_range he hc p clipY)
-    exact this.1
-  have htopM : pactTopE eps p clipY ≤ 2 ^ p - 1 := (C13_level_range he hc p clipY).2
+  have htop0 : 0 ≤ pactTopE eps p clipY := (pactTopE_range he hc p).1
+  have htopM : pactTopE eps p clipY ≤ 2 ^ p - 1 := (pactTopE_range he hc p).2
   have hsf : pactSf eps p clipY = 1 / pactStepE eps p clipY := by
     unfold pactSf pactStepE; rw [one_div_div]
   have hlvl : fqLevel eps p clipY acc nb sw sx σx
@@ -248,18 +257,6 @@ theorem layer_vs_fq {eps clipY : ℚ} (he : 0 ≤ eps) (hc : 0 < clipY) (p : ℕ
   rw [abs_mul] at this
   have h6 : ∀ u v w z : ℚ, u ≤ v + w → 1 + u + z ≤ 1 + v + w + z := fun u v w z h => by linarith
   exact h6 _ _ _ _ this
-where
-  C13_level_range {eps clipY : ℚ} (he : 0 ≤ eps) (hc : 0 < clipY) (p : ℕ) (x : ℚ) :
-      0 ≤ pactTopE eps p clipY ∧ pactTopE eps p clipY ≤ 2 ^ p - 1 := by
-    have hs := pactSf_nonneg he hc p
-    unfold pactTopE
-    rw [floor_eq]
-    constructor
-    · exact Int.floor_nonneg.mpr (mul_nonneg hs hc.le)
-    · rw [Int.floor_le_iff]
-      have h2 := pactSf_mul_clip_le he hc p
-      rw [nSteps_eq] at h2
-      push_cast; linarith
 
 /-- without stabiliser (`σ = s`, `top = M`) the bound is exactly "one level plus the bound implied
 by the scale/shift approximation" -/
